@@ -2,7 +2,7 @@
    Property theorems only; proofs are in ProofC01.v and ProofSession.v.  sh_words (the shell's word splitting) and
    tty_echo (the line discipline's echo) are environment models, validated against the real bash, dash and a real
    pty on every run (see Sh.v). *)
-From TV Require Import Base Utf8 Regex Channel ChannelLemmas Hush Session ProofSession Sh ProofC01 ProofC09b ProofInit.
+From TV Require Import Base Utf8 Regex Channel ChannelLemmas Hush Session ProofSession Sh ProofC01 ProofC09b ProofC04b ProofInit.
 
 (* (1) no word splitting, globbing, expansion or injection: the shell splits the line tbot sends into exactly the
        given strings, one argument per string -- for every list of strings without NUL *)
@@ -132,3 +132,39 @@ Theorem C01_init_shell_is_probe_then_rest :
   end.
 Proof. exact init_shell_unfold. Qed.
 Print Assumptions C01_init_shell_is_probe_then_rest.
+
+(* (8) the probe loop: when the answer to the probe arrives within the probe's timeout, wait_for_shell returns at its
+       first occurrence for EVERY fragmentation and timing of the console's output (ready = bytes that arrive
+       strictly before the deadline); what follows stays pending *)
+Theorem C01_wait_for_shell_answered :
+  forall fuel tmo c (st : stage) (sts : list stage) a,
+  quiet c -> slow c = None -> (0 < tmo)%Z -> wf_pend st ->
+  any_in (blacklist c) (PROBE ++ [CR]) = false ->
+  find_sub PROBE_ANSWER (cpend c ++ cat st) = Some a ->
+  a + length PROBE_ANSWER <= ready (Some (now (io c) + tmo)%Z) (pend (io (load st c))) ->
+  exists c' data,
+    wait_for_shell (S fuel) tmo (st :: sts) c = (IOk, c', sts) /\
+    quiet c' /\ cpend c ++ cat st = data ++ cpend c' /\
+    firstn (a + length PROBE_ANSWER) data = firstn a (cpend c ++ cat st) ++ PROBE_ANSWER /\
+    wr (io c') = wr (io c) ++ PROBE ++ [CR] /\ prompt c' = prompt c /\ blacklist c' = blacklist c.
+Proof. exact wait_for_shell_answered. Qed.
+Print Assumptions C01_wait_for_shell_answered.
+
+(* (9) the whole of _init_shell *)
+Theorem C01_init_shell_ok :
+  forall fuel tmo bl cfg c (st0 st_ps1 : stage) (stgs : list stage) (st_san : stage) a noise1,
+  quiet c -> slow c = None -> (0 < tmo)%Z -> wf_pend st0 ->
+  any_in (blacklist c) (PROBE ++ [CR]) = false ->
+  find_sub PROBE_ANSWER (cpend c ++ cat st0) = Some a ->
+  a + length PROBE_ANSWER <= ready (Some (now (io c) + tmo)%Z) (pend (io (load st0 c))) ->
+  any_in bl (PS1_LINE ++ [CR]) = false ->
+  Forall (fun l => any_in bl (l ++ [CR]) = false) cfg ->
+  any_in bl (SANITY ++ [CR]) = false ->
+  wf_pend st_ps1 -> cat st_ps1 = noise1 ++ TBOT_PROMPT ->
+  prompt_only_at_end TBOT_PROMPT (skipn (a + length PROBE_ANSWER) (cpend c ++ cat st0) ++ noise1) ->
+  Forall2 (fun l stg => wf_pend stg /\ exists noise, cat stg = noise ++ TBOT_PROMPT /\ prompt_only_at_end TBOT_PROMPT noise) cfg stgs ->
+  wf_pend st_san -> cat st_san = tty_echo false (SANITY ++ [CR]) ++ onlcr SANITY_ANSWER ++ TBOT_PROMPT ->
+  exists c', init_shell (S fuel) tmo bl PS1_LINE cfg (st0 :: st_ps1 :: stgs ++ [st_san]) c = (IOk, c', []) /\
+             insync c' /\ prompt c' = Some (SLit TBOT_PROMPT) /\ blacklist c' = bl.
+Proof. exact init_shell_ok. Qed.
+Print Assumptions C01_init_shell_ok.
